@@ -60,6 +60,85 @@ if not v.ok:
     c.inconclusive('TLC on Visibility.tla: %s %s' % (v.violated, v.error))
 c.log('design: TSTable.tla %d states, Visibility.tla %d states' % (d.distinct, v.distinct))
 
+# ---- 1b. trace engine: the publication fence of ordered (secondary-index driven) queries ----
+# design: TracePublication.tla, every interleaving of one two-phase query with one publication that retires the part the
+# index points at; spec self-test: with the fence released after the index selection TLC must find the torn view.
+# binding: every behaviour of the state graph is classified by where the publication request falls relative to the
+# query's steps and replayed on a REAL trace tsTable (real sidx, real introduceSync / commitSnapshotTransaction, real
+# buildConsistentVectorizedScanBatch); the gate between the two phases is the table lock of a second, empty table.
+TP = 'SPECIFICATION Spec\nCONSTANT FenceCoversPin = %s\nINVARIANTS\n  SelectedImpliesVisible\n  OnePublication\n  FenceExclusive\n  TornNeverObservable\nCHECK_DEADLOCK FALSE\n'
+tp = tlc.run('TracePublication.tla', 'tp.cfg', tag='c05p', files={'tp.cfg': TP % 'TRUE'}, dump=True, timeout=600, workers=2)
+if not tp.ok:
+    c.inconclusive('TLC on TracePublication.tla: violated=%s error=%s\n%s' % (tp.violated, tp.error, tp.output[-1500:]))
+tpn, tpe, tpi = tlc.graph(tp)
+_succ = {}
+for (_u, _v, _lab) in tpe:
+    if _u != _v and _v not in _succ.setdefault(_u, []):
+        _succ[_u].append(_v)
+tpb = []                              # ALL maximal paths of the (acyclic, tiny) state graph
+
+
+def _walk(path):
+    nxt = _succ.get(path[-1], [])
+    if not nxt:
+        tpb.append([tpn[x] for x in path])
+        return
+    for y in nxt:
+        _walk(path + [y])
+
+
+for _i in tpi:
+    _walk([_i])
+tlc.cleanup(tp)
+tpx = tlc.run('TracePublication.tla', 'tx.cfg', tag='c05x', files={'tx.cfg': TP % 'FALSE'}, timeout=600, workers=2)
+if tpx.violated != 'SelectedImpliesVisible':
+    c.inconclusive('spec self-test: TracePublication.tla with the fence released early did not violate SelectedImpliesVisible (%s %s)' % (tpx.violated, tpx.error))
+fence_binp = c.gobuild('c05fence')
+probes, shapes = [], {}
+for b in tpb:
+    fin = b[-1]
+    if fin['qpc'] != 'done' or fin['pub'] != 'done':
+        continue                      # replay only complete behaviours (prefixes are covered by them)
+    ops = [st['last'] for st in b[1:]]
+    req = [o for o in ops if o['op'] == 'PubRequest'][0]['at']
+    lock = [o for o in ops if o['op'] == 'PubLock'][0]['at']
+    unlock = [o for o in ops if o['op'] == 'PubUnlock'][0]['at']
+    if req == 'start' and unlock == 'start':
+        pos = 'before'
+    elif req == 'selected':
+        pos = 'mid'                   # requested between the phases; the fence makes it wait until QRelease
+    elif req == 'done':
+        pos = 'after'
+    else:
+        shapes['not_realisable:%s/%s/%s' % (req, lock, unlock)] = shapes.get('not_realisable:%s/%s/%s' % (req, lock, unlock), 0) + 1
+        continue                      # request inside a phase / publication overlapping QAcquire: no gate in the code to place it
+    shapes[pos] = shapes.get(pos, 0) + 1
+    for ntr in ((1, 2) if c.quick else (1, 2, 5)):
+        probes.append({'id': len(probes), 'pos': pos, 'selected': fin['qs'] == 0, 'visible': fin['qc'] == 0, 'traces': ntr,
+                       'park': 150 if c.quick else 300})
+if not {'before', 'mid', 'after'} <= set(shapes):
+    c.inconclusive('TracePublication.tla behaviours do not cover the three realisable schedules: %s' % shapes)
+fres = c.run_harness(fence_binp, ['-cfg', json.dumps(probes)], timeout=900)
+if fres['inconclusive']:
+    c.inconclusive('; '.join(fres['inconclusive'][:3]))
+for vv in fres['violations']:
+    one = [p for p in probes if p['id'] == vv['behaviour']]
+    again = c.run_harness(fence_binp, ['-cfg', json.dumps(one)], timeout=300)
+    if not [x for x in again['violations'] if x['signature'] == vv['signature']]:
+        c.unreproduced('violation %s not reproduced on a second run' % vv['signature'])
+        continue
+    c.report(vv['signature'], vv['detail'], {'probe': one, 'harness': 'c05fence'})
+    break
+# binding self-test: a probe whose expectation is corrupted (spec view flipped) must be flagged by the harness
+bad = [dict(p, id=0, selected=not p['selected'], visible=not p['visible']) for p in probes if p['pos'] == 'after'][:1]
+fst = c.run_harness(fence_binp, ['-cfg', json.dumps(bad)], timeout=300)
+fence_selftest = bool(fst['inconclusive']) and 'spec expects' in fst['inconclusive'][0]
+if not fence_selftest:
+    c.inconclusive('binding self-test failed: a corrupted expected view was accepted by c05fence')
+c.log('trace publication fence: %d states, %d behaviours -> %d probes %s on the real trace table: %s' % (len(tpn), len(tpb), len(probes), shapes, fres['stats']))
+fence_cov = dict(spec_states=len(tpn), behaviours=len(tpb), probes=len(probes), shapes=shapes, harness_stats=fres['stats'],
+                 spec_selftest_early_release_violates=True, binding_selftest_rejected=fence_selftest, samples=fres['samples'][:2])
+
 # ---- 2. real concurrent executions -> traces -> TLC ----
 runs = 3 if c.quick else 12        # two thirds on the measure engine, one third on the stream engine (same structure, own hooks)
 millis = 2500 if c.quick else 10000
@@ -123,7 +202,8 @@ c.cov.update(states=d.distinct + v.distinct, transitions=d.generated + v.generat
              evaluations=runs, distinct_nontrivial=traces, stress_stats=stats_all, binding_selftest_rejected=selftest,
              rule='each run = one real stand-alone server under concurrent gRPC writers/readers, real maintenance loops (40 ms flush timeout), file snapshots and table close; it yields a lifecycle trace (hooks at the snapshot/part reference-count linearization points) and a client-side visibility trace; a trace counts when TLC accepts all of its events with every invariant evaluated at every step; non-trivial = accepted trace with >= 20 events',
              samples=samples)
-c.assumptions += ['measure engine only (stream/trace share the structure but are not hooked yet)',
+c.cov.update(trace_publication_fence=fence_cov)
+c.assumptions += ['life-cycle/visibility traces: measure and stream engines (own hooks); the trace engine is covered for the publication fence of ordered queries only (TracePublication.tla, three realisable schedule positions: the gate between the two query phases is a table lock, positions inside a phase have no gate)',
                   'schedules are whatever the Go scheduler produces under load (seeded client mix), not enumerated; the design-level interleavings are exhaustive in TSTable.tla',
                   'events are ordered by a sequence number taken under one mutex at the linearization point; decrement events may be logged out of order, the logged counter value is authoritative']
 c.finish()
